@@ -5,8 +5,13 @@
   is the hint row (`start * 64 / TREE_FRAMES` is the tree searched).  `LowerInv` is the
   invariant of the lower metadata (counters = zero bits, marker ⇒ empty bitfield, frames outside
   the managed range marked allocated); it is the *only* assumption on the allocation pattern.
+
+  * `huge_entry_transitions_match_source` — `impl HugeEntry` (the counters and the huge marker of
+    the lower allocator) is re-derived from the Rust source on every run (`tools/rs2lean.py`,
+    `Gen/Huge.lean`) and proved equal to the model's transitions (`Proofs/GenTree.lean`).
 -/
 import LLFreeV.Proofs.LowerGet
+import LLFreeV.Proofs.GenTree
 namespace LLFree.C12
 open LLFree
 
@@ -76,5 +81,16 @@ theorem lower_get_at_iff (c : Cfg) (ok : GeomOk16 c.geom) (m : Mem) (inv : Lower
 /-- Non-vacuity: the default geometry satisfies the geometry assumptions. -/
 example : GeomOk16 ⟨9, 4⟩ := ⟨⟨by decide, ⟨2, rfl⟩⟩, by decide⟩
 example : GeomOk16 ⟨11, 8⟩ := ⟨⟨by decide, ⟨3, rfl⟩⟩, by decide⟩
+
+/-- **The table-entry transitions of the model are those of the current source**: `impl HugeEntry`
+    (`new_huge`, `new_with`, `huge`, `free`, `dec`, `inc`) is regenerated from `core/src/lower.rs` on
+    every run (`Gen/Huge.lean`) and agrees with the hand-written model for every entry value and
+    amount (for `inc`: amounts up to the bitfield length, which is all the callers pass). -/
+theorem huge_entry_transitions_match_source (len e n : Nat) (hn : n ≤ len) :
+    Gen.H.newHuge = .ok HugeMarker ∧ Gen.H.newWith n = .ok (Huge.newWith n) ∧
+    Gen.H.huge e = .ok (Huge.isHuge e) ∧ Gen.H.free e = .ok (Huge.free e) ∧
+    GenTree.Sim (GenTree.ofRON (Gen.H.dec e n)) (Upd.ofOption (Huge.dec e n)) ∧
+    GenTree.Sim (GenTree.ofRON (Gen.H.inc len e n)) (Huge.inc len e n) :=
+  ⟨GenTree.hnewHuge_eq, GenTree.hnewWith_eq n, GenTree.hhuge_eq e, GenTree.hfree_eq e, GenTree.hdec_eq e n, GenTree.hinc_eq len e n hn⟩
 
 end LLFree.C12
